@@ -55,7 +55,15 @@ let tok_of_string (s : string) : tok =
   if String.length s >= 2 && s.[0] = 'x' && s.[1] = ':' then begin
     let n = (String.length s - 2) / 2 in
     TB (List.init n (fun i -> z_of_int (hexval s.[2+2*i] * 16 + hexval s.[3+2*i])))
-  end else TZ (z_of_hex s)
+  end else begin
+    let ok = ref (String.length s > 0) in
+    String.iteri (fun i c -> match c with
+      | '0'..'9' | 'a'..'f' | 'A'..'F' -> ()
+      | '-' when i = 0 && String.length s > 1 -> ()
+      | _ -> ok := false) s;
+    if !ok then TZ (z_of_hex s)
+    else TB (List.init (String.length s) (fun i -> z_of_int (Char.code s.[i])))   (* a name: its bytes *)
+  end
 
 let int_of_z (x : z) : int = int_of_string ("0x" ^ hex_of_z x)
 
